@@ -1,4 +1,333 @@
 package main
 
-func checkC11(o options) int  { die(2, "C11 not built yet"); return 2 }
-func replayC11(o options) int { die(2, "C11 not built yet"); return 2 }
+import (
+	"encoding/json"
+	"fmt"
+	"os"
+	"path/filepath"
+	"sort"
+	"strings"
+	"time"
+)
+
+type c11Found struct {
+	Class  string `json:"class"`
+	Oracle string `json:"oracle"`
+	Detail string `json:"detail"`
+	Replay string `json:"replay"`
+	Seed   uint64 `json:"run_seed"`
+}
+
+type c11Stats struct {
+	Worker         int               `json:"worker"`
+	Race           bool              `json:"race_detector"`
+	FirstRunSeed   uint64            `json:"first_run_seed"`
+	LastRunSeed    uint64            `json:"last_run_seed"`
+	Runs           int               `json:"runs"`
+	RunsSkipped    int               `json:"runs_skipped_schema_error"`
+	RunsBySource   map[string]int    `json:"runs_by_source"`
+	RunsByStrategy map[string]int    `json:"runs_by_strategy"`
+	RunsByMask     map[string]int    `json:"runs_by_site_mask"`
+	TasksHist      map[string]int    `json:"tasks_per_run"`
+	OpsByKind      map[string]int    `json:"ops_by_kind"`
+	Steps          uint64            `json:"steps"`
+	Switches       uint64            `json:"switches"`
+	Preemptions    int               `json:"preemptions"`
+	WriterSwitches int               `json:"writer_switches"`
+	Aborts         int               `json:"aborts_fired"`
+	Stalls         int               `json:"stalls_fired"`
+	FaultsPlanned  int               `json:"faults_planned"`
+	Samples        int               `json:"samples"`
+	Snapshots      int               `json:"snapshots"`
+	OpsDone        int               `json:"ops_done"`
+	OpsAborted     int               `json:"ops_aborted"`
+	OpsCompared    int               `json:"ops_compared"`
+	OverBudget     int               `json:"runs_over_budget"`
+	SchedHashes    []uint64          `json:"sched_hashes"`
+	SitePairList   []uint64          `json:"site_pairs"`
+	Probes         map[string]int    `json:"probes"`
+	WallS          float64           `json:"wall_s"`
+	Violations     []c11Found        `json:"violations"`
+	SampleRuns     []json.RawMessage `json:"sample_runs"`
+}
+
+func goraceEnv(prefix string) []string {
+	return []string{"GORACE=log_path=" + prefix + " halt_on_error=0 history_size=7 exitcode=0"}
+}
+
+func checkC11(o options) int {
+	wall := o.wall
+	if wall == 0 {
+		if o.tier == "thorough" {
+			wall = 25 * time.Minute
+		} else {
+			wall = 30 * time.Second
+		}
+	}
+	known := loadKnown("C11")
+	builds := prepareAll(prepOpts{instrumented: true, race: true, name: "race"}, prepOpts{instrumented: true, name: "inst"})
+	race, plain := builds[0], builds[1]
+	census := asList(race.instrument["census"])
+	logf("built: race and plain instrumented harness (%v sites); census hits: %d", race.instrument["sites"], len(census))
+	noIso := false
+	for _, h := range census {
+		m, _ := h.(map[string]interface{})
+		if m["class"] == "concurrency" {
+			die(2, "C11: library code contains %v at %v: the simulator cannot guarantee a serialised schedule any more (DESIGN.md section 9); refusing to run a simulation that does not own the schedule", m["what"], m["pos"])
+		}
+		if m["class"] == "nondeterminism" {
+			noIso = true
+		}
+	}
+	rdir := filepath.Join(scratch, "replays")
+	os.MkdirAll(rdir, 0o755)
+	// one worker in four runs without the race detector (5-10x more schedules
+	// for the drift and isolation oracles); the others carry all three oracles
+	res := runProcs(o.workers, func(i int) (string, []string, []string, string) {
+		of := filepath.Join(scratch, fmt.Sprintf("c11-w%d.json", i))
+		bin := race.bin
+		if i%4 == 3 {
+			bin = plain.bin
+		}
+		rlog := filepath.Join(scratch, fmt.Sprintf("racelog-w%d", i))
+		args := []string{"c11", "--seed", fmt.Sprint(o.seed), "--worker", fmt.Sprint(i), "--wall", wall.String(), "--out", of, "--replays", rdir, "--sources", o.sources, "--known", knownArg(known), "--racelog", rlog}
+		if noIso {
+			args = append(args, "--no-isolation")
+		}
+		return bin, args, goraceEnv(rlog), of
+	})
+	var stats []c11Stats
+	for _, r := range res {
+		if r.err != nil {
+			die(2, "C11 worker %d failed (exit %d): machinery trouble (watchdog, harness bug or crash outside a recovered operation), not a C11 verdict:\n%s", r.idx, r.exit, tail(r.stderr, 60))
+		}
+		var st c11Stats
+		if err := readJSONFile(r.file, &st); err != nil {
+			die(2, "C11 worker %d result: %v", r.idx, err)
+		}
+		stats = append(stats, st)
+	}
+	logf("exploration done")
+
+	// ---- violations: minimise, confirm in a fresh process, publish ----
+	seen := map[string]bool{}
+	var knownLines, violationLines []string
+	unknown := 0
+	exit := 0
+	outDir := filepath.Join(verifDir, "replays")
+	for _, st := range stats {
+		for _, v := range st.Violations {
+			if seen[v.Class] {
+				continue
+			}
+			seen[v.Class] = true
+			if kf := isKnown(known, v.Class); kf != nil {
+				knownLines = append(knownLines, fmt.Sprintf("KNOWN-FINDING: property=C11 %s (%s)", kf.What, v.Class))
+				continue
+			}
+			unknown++
+			if unknown > 5 {
+				continue
+			}
+			bin := race.bin
+			if v.Oracle != "race" && !st.Race {
+				bin = plain.bin
+			}
+			minPath := filepath.Join(rdir, "min-"+filepath.Base(v.Replay))
+			rlog := filepath.Join(scratch, fmt.Sprintf("racelog-min%d", unknown))
+			budget := "120s"
+			if o.tier == "thorough" {
+				budget = "300s"
+			}
+			cmdEnv := append(os.Environ(), goraceEnv(rlog)...)
+			out, err := run(scratch, cmdEnv, bin, "c11-min", "--out", minPath, "--budget", budget, "--racelog", rlog, v.Replay)
+			final := minPath
+			if err != nil {
+				logf("minimisation of %s failed (%v): %s; publishing the unminimised replay", v.Class, err, tail(out, 5))
+				final = v.Replay
+			} else {
+				logf("class %s: %s", v.Class, strings.TrimSpace(tail(out, 1)))
+			}
+			// fresh-process confirmation
+			rout, rerr := run(scratch, cmdEnv, bin, "c11-replay", "--racelog", rlog, final)
+			if rerr == nil || !strings.Contains(rout, "REPRODUCED class="+v.Class) {
+				die(2, "C11: replay of %s did not reproduce class %s in a fresh process (simulator nondeterminism?):\n%s", final, v.Class, tail(rout, 10))
+			}
+			var rp map[string]interface{}
+			dst := filepath.Join(outDir, fmt.Sprintf("C11-%d-%d.json", v.Seed, unknown))
+			if err := readJSONFile(final, &rp); err == nil {
+				rp["repo_tree"] = repoTree()
+				rp["verif_seed"] = o.seed
+				rp["race_detector"] = bin == race.bin
+				writeJSONFile(dst, rp)
+			}
+			violationLines = append(violationLines, fmt.Sprintf("VIOLATION property=C11 replay=%s", dst))
+			logf("violation %s: %s", v.Class, firstLine(v.Detail))
+			exit = 1
+		}
+	}
+
+	ev := aggregateC11(o, stats, wall)
+	cov := ev["coverage"].(map[string]interface{})
+	cov["census"] = census
+	cov["isolation_oracle"] = !noIso
+	cov["instrumenter"] = race.instrument
+	cov["known_findings_hit"] = knownLines
+	ev["violations"] = unknown
+	ev["wall_s"] = time.Since(t0).Seconds()
+	writeJSONFile(filepath.Join(verifDir, "evidence", "C11.json"), ev)
+	for _, l := range knownLines {
+		fmt.Println(l)
+	}
+	for _, l := range violationLines {
+		fmt.Println(l)
+	}
+	if exit == 0 {
+		fmt.Printf("C11 ok: %v runs, %v distinct preempted interleavings, %v operations compared solo vs concurrent, %v snapshots, 0 unlisted violations\n", cov["evaluations"], cov["distinct_nontrivial"], cov["operations_compared"], cov["snapshots_compared"])
+	}
+	return exit
+}
+
+func firstLine(s string) string {
+	s = strings.TrimSpace(s)
+	if i := strings.IndexByte(s, '\n'); i >= 0 {
+		s = s[:i]
+	}
+	if len(s) > 300 {
+		s = s[:300]
+	}
+	return s
+}
+
+func aggregateC11(o options, stats []c11Stats, wall time.Duration) map[string]interface{} {
+	tot := c11Stats{RunsBySource: map[string]int{}, RunsByStrategy: map[string]int{}, RunsByMask: map[string]int{}, TasksHist: map[string]int{}, OpsByKind: map[string]int{}, Probes: map[string]int{}}
+	sched := map[uint64]bool{}
+	pairs := map[uint64]bool{}
+	var samples []json.RawMessage
+	var seeds []map[string]interface{}
+	raceRuns, plainRuns := 0, 0
+	var wsum float64
+	for _, st := range stats {
+		tot.Runs += st.Runs
+		tot.RunsSkipped += st.RunsSkipped
+		tot.Steps += st.Steps
+		tot.Switches += st.Switches
+		tot.Preemptions += st.Preemptions
+		tot.WriterSwitches += st.WriterSwitches
+		tot.Aborts += st.Aborts
+		tot.Stalls += st.Stalls
+		tot.FaultsPlanned += st.FaultsPlanned
+		tot.Samples += st.Samples
+		tot.Snapshots += st.Snapshots
+		tot.OpsDone += st.OpsDone
+		tot.OpsAborted += st.OpsAborted
+		tot.OpsCompared += st.OpsCompared
+		tot.OverBudget += st.OverBudget
+		addMap(tot.RunsBySource, st.RunsBySource)
+		addMap(tot.RunsByStrategy, st.RunsByStrategy)
+		addMap(tot.RunsByMask, st.RunsByMask)
+		addMap(tot.TasksHist, st.TasksHist)
+		addMap(tot.OpsByKind, st.OpsByKind)
+		addMap(tot.Probes, st.Probes)
+		for _, h := range st.SchedHashes {
+			sched[h] = true
+		}
+		for _, p := range st.SitePairList {
+			pairs[p] = true
+		}
+		if st.Race {
+			raceRuns += st.Runs
+		} else {
+			plainRuns += st.Runs
+		}
+		if len(samples) < 3 && len(st.SampleRuns) > 0 {
+			samples = append(samples, st.SampleRuns[len(st.SampleRuns)-1])
+		}
+		seeds = append(seeds, map[string]interface{}{"worker": st.Worker, "race_detector": st.Race, "first_run_seed": st.FirstRunSeed, "last_run_seed": st.LastRunSeed, "runs": st.Runs})
+		wsum += st.WallS
+	}
+	perHour := 0
+	if wsum > 0 {
+		perHour = int(float64(tot.Runs) / (wsum / float64(len(stats))) * 3600)
+	}
+	var stuck []string
+	pk := sortedKeys(tot.Probes)
+	for _, p := range pk {
+		if tot.Probes[p] == 0 {
+			stuck = append(stuck, p)
+		}
+	}
+	sort.Strings(stuck)
+	cov := map[string]interface{}{
+		"evaluations":         tot.Runs,
+		"distinct_nontrivial": len(sched),
+		"rule": "one evaluation = one simulated run: 2-32 client tasks (real goroutines run one at a time by the seeded scheduler, handoff invisible to the race detector) each issuing 1-8 operations (LoadQuery / ParseQuery+Validate with a rule list, then variable coercion, argument maps, document formatting; schema formatting) against one shared schema, with seeded preemption strategy, site mask and faults. " +
+			"A run is non-trivial when at least one preemption happened at a yield point inside library code; distinct = distinct hashes of the executed switch sequence (task, task-local yield, target).",
+		"samples":                    samples,
+		"runs_with_race_detector":    raceRuns,
+		"runs_without_race_detector": plainRuns,
+		"runs_skipped_schema_error":  tot.RunsSkipped,
+		"runs_by_source":             tot.RunsBySource,
+		"runs_by_strategy":           tot.RunsByStrategy,
+		"runs_by_site_mask":          tot.RunsByMask,
+		"tasks_per_run":              tot.TasksHist,
+		"operations_by_kind":         tot.OpsByKind,
+		"operations_completed":       tot.OpsDone,
+		"operations_aborted":         tot.OpsAborted,
+		"operations_compared":        tot.OpsCompared,
+		"logical_steps_yields":       tot.Steps,
+		"context_switches":           tot.Switches,
+		"fault_kinds_injected": map[string]interface{}{
+			"preemptions_inside_library_code": tot.Preemptions,
+			"writer_stalls_switch_inside_io_Writer": tot.WriterSwitches,
+			"aborts_fired":  tot.Aborts,
+			"stalls_fired":  tot.Stalls,
+			"faults_planned": tot.FaultsPlanned,
+		},
+		"mid_run_snapshot_samples":       tot.Samples,
+		"snapshots_compared":             tot.Snapshots,
+		"distinct_interleavings":         len(sched),
+		"distinct_preemption_site_pairs": len(pairs),
+		"runs_over_yield_budget":         tot.OverBudget,
+		"probes":                         tot.Probes,
+		"probes_stuck_at_zero":           stuck,
+		"simulated_runs_per_hour":        perHour,
+		"simulated_time":                 "none: no code path reads a clock; logical time is the global yield counter (logical_steps_yields)",
+		"worker_seeds":                   seeds,
+		"seed_derivation":                "run seed = splitmix(splitmix(VERIF_SEED, worker+5000), n)",
+		"workers":                        len(stats),
+		"wall_budget_per_worker_s":       wall.Seconds(),
+		"components": map[string]string{"real": "every library package, instrumented with yield points before every statement and the map-order seam; Go race detector as history oracle", "harness": "io.Writer given to the formatter (yields / aborts inside Write), request data, sentinel reader, schema fingerprint", "stub": "none"},
+	}
+	return map[string]interface{}{
+		"property_id": "C11", "tier": o.tier, "seed": int64(o.seed), "level": "exploration",
+		"coverage": cov,
+		"assumptions": []string{
+			"the handoff between tasks (raw read/write on pipes via syscall.Syscall) creates no happens-before edge for the race detector, so every unsynchronised conflicting access pair of two tasks is reported whatever the schedule (re-checked by selftest with a seeded mutant)",
+			"sync.Pool exchanges inside fmt can order two tasks and mask a race between them in one run; other seeds exchange differently",
+			"AddRule/RemoveRule/ReplaceRule are not called concurrently (documented as unsafe; outside the property)",
+			"sampled: schedules, faults and programs are not enumerated",
+		},
+	}
+}
+
+func replayC11(o options) int {
+	var rp struct {
+		Race *bool `json:"race_detector"`
+	}
+	readJSONFile(o.replay, &rp)
+	useRace := rp.Race == nil || *rp.Race
+	builds := prepareAll(prepOpts{instrumented: true, race: useRace, name: "race"})
+	rlog := filepath.Join(scratch, "racelog-replay")
+	out, err := run(scratch, append(os.Environ(), goraceEnv(rlog)...), builds[0].bin, "c11-replay", "--racelog", rlog, o.replay)
+	fmt.Print(out)
+	if err == nil {
+		fmt.Println("replay: violation NOT reproduced on the current tree")
+		return 0
+	}
+	if strings.Contains(out, "REPRODUCED") {
+		fmt.Printf("VIOLATION property=C11 replay=%s\n", o.replay)
+		return 1
+	}
+	return 2
+}
